@@ -88,6 +88,10 @@ fn run_pool(lines: Vec<String>, threads: usize, f: fn(&str) -> Vec<String>) -> V
         ids += 1;
     }
     let mut stuck = 0usize;
+    // records are written in case order as soon as they are there (a large case file never sits in memory as a whole)
+    let stdout = std::io::stdout();
+    let mut w = std::io::BufWriter::with_capacity(1 << 20, stdout.lock());
+    let mut next_print = 0usize;
     // a case may take its time in proportion to the opcode budget it asks for (`max=`): 1 s per 50 opcodes on top of the base
     let budget: Vec<u64> = lines
         .iter()
@@ -96,7 +100,17 @@ fn run_pool(lines: Vec<String>, threads: usize, f: fn(&str) -> Vec<String>) -> V
     let base = deadline_secs();
     loop {
         std::thread::sleep(std::time::Duration::from_millis(20));
-        if results.lock().unwrap().iter().all(|r| r.is_some()) {
+        {
+            let mut res = results.lock().unwrap();
+            while next_print < n && res[next_print].is_some() {
+                for l in res[next_print].take().unwrap() {
+                    writeln!(w, "{}", l).unwrap();
+                }
+                res[next_print] = Some(Vec::new());
+                next_print += 1;
+            }
+        }
+        if next_print >= n {
             break;
         }
         let hung: Vec<(usize, usize)> = running
@@ -131,8 +145,8 @@ fn run_pool(lines: Vec<String>, threads: usize, f: fn(&str) -> Vec<String>) -> V
             }
         }
     }
-    let mut g = results.lock().unwrap();
-    g.iter_mut().map(|r| r.take().unwrap()).collect()
+    w.flush().unwrap();
+    Vec::new()
 }
 fn read_lines(path: &str) -> Vec<String> {
     std::io::BufReader::new(std::fs::File::open(path).unwrap())
